@@ -168,13 +168,16 @@ Iterate(rcv, src, wireF, indF, asInvalid, dimseFail, msgInd, sendFail) ==
                      ELSE IF uq # <<>> THEN (IF Head(uq).k = "GEN" THEN Head(Head(uq).frags) ELSE Head(uq))
                      ELSE NoSlot
          newId  == nid + 1
+         \* the fragment generator of an outgoing message fails at this position (its source cannot be read, or no
+         \* fragment fits the peer's maximum): nothing is taken, the generator is dropped, the provider aborts (Evt19)
+         genFail == src = "user" /\ userItem.k = "BAD"
          newSlot == CASE src = "frame" -> [id |-> newId, k |-> fr.k, f |-> fr.f, pdvs |-> fr.pdvs, grey |-> fr.grey]
-                      [] src = "user"  -> [id |-> newId, k |-> userItem.k, f |-> userItem.f, pdvs |-> userItem.pdvs, grey |-> FALSE]
+                      [] src = "user" /\ ~genFail -> [id |-> newId, k |-> userItem.k, f |-> userItem.f, pdvs |-> userItem.pdvs, grey |-> FALSE]
                       [] OTHER -> slot
          newEvt == CASE src = "conn" -> <<[e |-> 2, id |-> 0]>>
                      [] src = "frame" -> <<[e |-> IF fr.grey /\ asInvalid THEN 19 ELSE EvtOfPdu(fr.k), id |-> newId]>>
                      [] src = "eof" -> <<[e |-> 17, id |-> 0]>>
-                     [] src = "user" -> <<[e |-> EvtOfPrim(userItem.k), id |-> newId]>>
+                     [] src = "user" -> IF genFail THEN <<[e |-> 19, id |-> 0]>> ELSE <<[e |-> EvtOfPrim(userItem.k), id |-> newId]>>
                      [] src = "timer" -> <<[e |-> 18, id |-> 0]>>
                      [] OTHER -> <<>>
          q == evq \o newEvt
@@ -186,6 +189,7 @@ Iterate(rcv, src, wireF, indF, asInvalid, dimseFail, msgInd, sendFail) ==
      /\ raw' = IF src = "frame" THEN r - fr.len ELSE r
      /\ rx' = rx - n
      /\ gen' = IF src # "user" THEN gen
+               ELSE IF genFail THEN <<>>
                ELSE IF gen # <<>> THEN Tail(gen)
                ELSE IF Head(uq).k = "GEN" THEN Tail(Head(uq).frags) ELSE gen
      /\ uq' = IF src = "user" /\ gen = <<>> THEN Tail(uq) ELSE uq
